@@ -114,6 +114,32 @@ def regenerate():
     return changed, info
 
 
+# the classes of the C16 parser files that the walk runs through (transitively): a `lost` one means the walk is no longer the source's
+DEPS = {
+    'tlbparsers': ['ShardIdent', 'ExtBlkRef', 'BlkMasterInfo', 'StorageUsed', 'StorageInfo', 'AccountStatus', 'StateInit', 'AccountState',
+                   'TickTock', 'ValidatorInfo', 'KeyExtBlkRef', 'KeyMaxLt', 'CreatorStats', 'FutureSplitMerge'],
+    'tlbparsers_tx': ['CurrencyCollection', 'ExtraCurrencyCollection'],
+    'tlbparsers_blk': ['DepthBalanceInfo', 'AccountStorage', 'Account', 'ShardDescr', 'OldMcBlocksInfo', 'BlockCreateStats', 'ConfigParams',
+                       'McStateExtra'],
+}
+
+
+def regenerate_deps():
+    """the three C16 parser files, regenerated (C11 depends on them through Generated/LocateSrc.lean)"""
+    from . import tlbparsers_tx as TX
+    changed = False
+    infos = {}
+    for name, mod in (('tlbparsers', TP), ('tlbparsers_tx', TX), ('tlbparsers_blk', TB)):
+        ch, info = mod.regenerate()
+        changed = changed or ch
+        for cls in DEPS[name]:
+            i = info.get(cls)
+            if i is not None and i.get('status') != 'ok':
+                raise Untranslatable(f'{cls} ({name}): {i.get("reason")}')
+            infos[cls] = 'ok' if i is not None else 'n/a'
+    return changed, infos
+
+
 if __name__ == '__main__':
     try:
         ch, info = regenerate()
